@@ -375,8 +375,9 @@ class Canon:
             if f.kind == "getter" and not _trivial_getter(f.node):
                 EFFECT_ATTRS.add(f.prop or f.name)
 
-    def helper(self, f, call):
-        """FuncInfo of the private single-use helper called by `call` inside `f`, or None"""
+    def helper(self, f, call, generator=False):
+        """FuncInfo of the private single-use helper called by `call` inside `f`, or None. generator=True: a generator function whose `yield`s are plain statements
+        (read where a `for` consumes it); otherwise an ordinary function"""
         self._index()
         fn = call.func
         if isinstance(fn, ast.Attribute) and isinstance(fn.value, ast.Name) and fn.value.id in ("self", "cls") and f.cls is not None:
@@ -403,8 +404,16 @@ class Canon:
             return None
         if a.vararg and any(isinstance(x, ast.Starred) for x in call.args):
             return None
-        if any(isinstance(x, (ast.Yield, ast.YieldFrom, ast.Await, ast.Global, ast.Nonlocal)) for x in ast.walk(h.node)):
+        if any(isinstance(x, (ast.YieldFrom, ast.Await, ast.Global, ast.Nonlocal)) for x in ast.walk(h.node)):
             return None
+        ys = [x for x in ast.walk(h.node) if isinstance(x, ast.Yield)]
+        if bool(ys) != generator:
+            return None
+        if generator:
+            stmt_yields = {id(x.value) for x in ast.walk(h.node) if isinstance(x, ast.Expr) and isinstance(x.value, ast.Yield)}
+            if any(id(y) not in stmt_yields or y.value is None for y in ys) or any(isinstance(x, ast.Return) and x.value is not None for x in ast.walk(h.node)) \
+                    or any(isinstance(x, (ast.FunctionDef, ast.Lambda)) and x is not h.node for x in ast.walk(h.node)):
+                return None
         n_stmts = sum(1 for b in _strip_doc(h.node.body) for x in ast.walk(b) if isinstance(x, ast.stmt))   # (the docstring does not count)
         if self._refs.get(name, 0) > 1 and n_stmts > (25 if self._refs.get(name, 0) == 2 else (10 if self._refs.get(name, 0) <= 4 else 3)):
             return None  # a helper shared by several callers is only written out when it is small
@@ -556,6 +565,31 @@ class Canon:
         out = []
         for st in body:
             st = self._inline_nested(f, st, depth)
+            if isinstance(st, ast.For) and isinstance(st.iter, ast.Call) and not st.orelse and isinstance(st.target, ast.Name) and self.helper(f, st.iter, generator=True) is not None \
+                    and not any(isinstance(x, (ast.Break, ast.Continue, ast.Return, ast.Yield)) for b in st.body for x in ast.walk(b)):
+                # `for v in self._gen(..): body` with a generator helper: the helper's body with `v = E; body` at every `yield E` (a generator is consumed lazily: the
+                # same interleaving)
+                h = self.helper(f, st.iter, generator=True)
+                hnode, ren = self._prepared(h, depth)
+                binds = self._bind(h, hnode, ren, st.iter)
+                if binds is not None and not any(isinstance(x, ast.Return) for x in ast.walk(hnode)):
+                    k_ = [0]
+
+                    class Y(ast.NodeTransformer):
+                        def visit_Expr(self, n):
+                            if isinstance(n.value, ast.Yield):
+                                k_[0] += 1
+                                body_ = copy.deepcopy(st.body) if k_[0] > 1 else list(st.body)
+                                return [ast.copy_location(ast.Assign(targets=[ast.Name(id=st.target.id, ctx=ast.Store())], value=n.value.value, lineno=n.lineno), n)] + body_
+                            return n
+
+                    new_body = []
+                    for b in hnode.body:
+                        r = Y().visit(b)
+                        new_body.extend(r if isinstance(r, list) else [r])
+                    self._inlined[id(h)] = self._inlined.get(id(h), 0) + (1 if depth == 0 else 0)
+                    out.extend(binds + new_body)
+                    continue
             call, mode = None, None
             if isinstance(st, ast.Expr) and isinstance(st.value, ast.Call):
                 call, mode = st.value, "expr"
